@@ -7,3 +7,5 @@ def check(rep, tier):
     rep.run(vspaces.run_scalar, rep, tier)
     rep.run(vspaces.run_exact, rep, tier)
     rep.run(containers.run_ground, rep, tier)
+    from contracts import core_outgrads
+    rep.run(core_outgrads.run, rep, tier)
